@@ -24,8 +24,14 @@ NOT CHECKED (deliberately, the property text does not demand it or is silent):
   * *which* collection a back-reference is filed under (dovetails_L vs _R ...): that is C11.
   * ID-tagged L/C lines are checked for membership in g.lines only, not for g.line(ID) (C09, defect #20).
   * the order of elements inside collections.
+  * a line whose identifier is also the name of a placeholder (virtual line), or the reverse, is not reported
+    as "not found under its identifier" (identifier clashes with merely mentioned names are not pinned down).
   * orphan virtual lines (placeholders nobody references any more) are not reported.
-  * reparse is skipped while virtual lines exist, at vlevel 0 and when the version is still unknown.
+  * reparse is skipped while virtual lines exist, at vlevel 0, when the version is still unknown, when the Gfa
+    is empty, and when a group was left with no item (its last item was a removed gap: the property does not
+    say what becomes of such a set).
+  * an O line listing a U line (not allowed by the specification, accepted by add_line): U lines have no
+    `paths` collection, the missing mirror is not reported.
 """
 from harness import lib
 from harness.props import _hist as H
@@ -123,7 +129,8 @@ def walk(g):
         if ok and x.record_type in NAMED_RT:
             n = x.name
             if isinstance(n, str) and not gfapy.is_placeholder(n):
-                if g.line(n) is not x:
+                y = g.line(n)
+                if y is not x and not x.virtual and not (y is not None and y.virtual):
                     F.append("not-found-under-identifier: %r reached from %r but line(%r) is %r" %
                              (str(x), str(src), n, str(g.line(n))))
         return ok
@@ -161,6 +168,8 @@ def walk(g):
         a, b = fwd.get(key, 0), back.get(key, 0)
         if a != b:
             x, t = objs.get(key[0]), objs.get(key[1])
+            if _rt(x) == "O" and _rt(t) == "U":
+                continue
             kind = "reference-not-mirrored" if a > b else "backreference-without-reference"
             F.append("%s-to-%s: %s %r refers %d times to %r which lists it %d times" %
                      (kind, _rt(t), _rt(x), str(x), a, str(t), b))
@@ -178,7 +187,8 @@ def oracle(case):
         pre = "after-failed-step-" if failed else ""
         try:
             F = walk(g)
-            if not F and not failed and case.get("vlevel", 1) >= 1 and g.version is not None and not H.has_virtual(g):
+            if not F and not failed and case.get("vlevel", 1) >= 1 and g.version is not None and not H.has_virtual(g) \
+                    and not any(l.record_type in ("O", "U") and len(l.items) == 0 for l in g.lines):
                 txt = str(g)
                 rr = lib.outcome(gfapy.Gfa, txt) if txt else ("ok", None)
                 if rr[0] != "ok":
